@@ -616,6 +616,15 @@ class Interp(object):
 
     def construct(self, cref, args, kwargs):
         """Instantiate an abstract object; AST classes take their fields positionally."""
+        if cref.name in CONST_KIND:
+            # ast_compat.Num / Str / Bytes / NameConstant / Ellipsis all build a Constant
+            if cref.name == 'Ellipsis':
+                val = Ellipsis
+            else:
+                val = args[0] if args else kwargs.get('value', kwargs.get('n', kwargs.get('s', TOP)))
+            o = Obj('Constant', value=val, kind=None)
+            self.events.append(('new', o))
+            return o
         fields = getattr(getattr(ast, cref.name, None), '_fields', None)
         attrs = dict(kwargs)
         if fields:
@@ -731,6 +740,17 @@ class Interp(object):
         return hasattr(o, name)
 
     def builtin_getattr(self, args, kwargs, e, env):
+        if len(args) >= 2 and isinstance(args[0], Obj) and isinstance(args[1], str) and args[1] not in args[0].attrs and self.model is not None and \
+                any(cq.rsplit('.', 1)[1] == args[0].cls for cq in self.model.classes):
+            # object of a repository class: its methods are known
+            for cq in self.model.classes:
+                if cq.rsplit('.', 1)[1] == args[0].cls:
+                    fi = self.model.method(cq, args[1])
+                    if fi is not None:
+                        return Closure(fi.node, {}, self, self_obj=args[0], cls=cq)
+            if len(args) == 3:
+                return args[2]
+            raise _Raise('AttributeError:' + args[1])
         if len(args) >= 2 and isinstance(args[0], Obj) and isinstance(args[1], str):
             if args[1] in args[0].attrs:
                 return args[0].attrs[args[1]]
@@ -787,6 +807,30 @@ class Interp(object):
 
     def builtin_type(self, args, kwargs, e, env):
         return self.typeof(args[0]) if len(args) == 1 else TOP
+
+    def builtin_filter(self, args, kwargs, e, env):
+        f, it = args
+        if it is TOP:
+            return TOP
+        out = []
+        for x in self.iterate(it):
+            v = self.call_closure(f, [x], {}) if isinstance(f, Closure) else (x if f is None else TOP)
+            if self.decide(v):
+                out.append(x)
+        return out
+
+    def builtin_map(self, args, kwargs, e, env):
+        f, it = args[0], args[1]
+        if it is TOP or not isinstance(f, Closure):
+            return TOP
+        return [self.call_closure(f, [x], {}) for x in self.iterate(it)]
+
+    def builtin_list(self, args, kwargs, e, env):
+        if not args:
+            return []
+        if args[0] is TOP or isinstance(args[0], Obj):
+            return TOP
+        return list(self.iterate(args[0]))
 
     def builtin_zip(self, args, kwargs, e, env):
         if any(a is TOP or isinstance(a, Obj) for a in args):
